@@ -211,8 +211,12 @@ func faultErr(kind string) error {
 	case "serialization":
 		return fosite.ErrSerializationFailure
 	}
-	return errors.New("injected storage failure")
+	return errors.New("injected storage failure " + StorageCanary)
 }
+
+// StorageCanary is part of the text of every injected generic storage error: internal detail that no response may carry
+// unless the operator enabled debug output (judged by C20).
+const StorageCanary = "STORAGE-CANARY-5f1e pq: relation \"oauth2_access\" host=10.9.8.7"
 
 // txAutomaton checks the begin/commit/rollback discipline of one request.
 func txAutomaton(ev []string) string {
